@@ -144,6 +144,25 @@ def generator_rule(run, rule, ast):
     if not fs:
         raise common.AnalysisBroken("generator::write_static_offsets(const method_info&, std::ostream&) not found")
     f = fs[0]
+    # width of what is printed: static offsets are std::size_t; an integer inserted into the stream through a narrower
+    # type (in the function or a lambda nested in it) is printed modulo 2^width
+    NARROW = r"^(const )?(std::)?(u?int(8|16|32)_t|unsigned short|short|unsigned int|int|unsigned char|signed char|char|uint_least(8|16|32)_t|uint_fast8_t)$"
+    nins = 0
+    for n in astq.walk(f["body"]):
+        if n.get("k") == "CXXOperatorCallExpr" and n.get("oop") == "<<" and len(n.get("c") or []) >= 3:
+            v = astq.strip(n["c"][2])
+            t = (v.get("t") or "") if v is not None else ""
+            if v is None or v.get("k") in ("StringLiteral", "CharacterLiteral") or "char" in t and "*" in t:
+                continue
+            if re.search(r"(unsigned long|size_t|unsigned long long)$", t):
+                nins += 1
+            elif re.match(NARROW, t):
+                nins += 1
+                run.instance(rule, "generator::write_static_offsets: integers are printed at full width", (f["file"], n["l"]), ok=False)
+                run.violation(rule, "generator::write_static_offsets|width", "an integer of type `%s` is inserted into the output: offsets of 2^%s or more are printed truncated" % (
+                    t, (re.search(r"(8|16|32)", t).group(1) if re.search(r"(8|16|32)", t) else "8" if "char" in t else "16" if "short" in t else "32")), (f["file"], n["l"]))
+    if nins:
+        run.instance(rule, "generator::write_static_offsets: integers are printed at full width", (f["file"], f["line"]), ok=True)
     st = Emission()
     emit_walk(f["body"], st, {})
     if st.unclassified:
@@ -440,6 +459,15 @@ def check_static_offset_rule(run, rule, mod):
                     seen.add(b)
                     return any(reach(s, tgt, seen) for s in f.succ(b))
                 ok = ne_edge is not None and reach(ne_edge, hb) and not reach(other, hb)
+                # every call compares: no path from the entry to a return avoids the comparison
+                rets = [i.bb for i in f.all_insts() if i.op == "ret"]
+                entry = f.order[0]
+                skip = [r for r in rets if c.bb != entry and reach(entry, r, {c.bb})]
+                if ok and skip:
+                    run.instance(rule, "check_static_offset: every call compares actual with expected: %s" % re.sub(r"so_\w+_\d+::key", "K", f.dname), f.where(), ok=False)
+                    run.violation(rule, "method::check_static_offset|skipped", "a path through check_static_offset returns without comparing the static offset with the installed one (the check depends on more than its arguments)", f.where())
+                    continue
+                run.instance(rule, "check_static_offset: every call compares actual with expected: %s" % re.sub(r"so_\w+_\d+::key", "K", f.dname), f.where(), ok=True)
         run.instance(rule, "check_static_offset: mismatch (and only mismatch) reaches the error handler: %s" % re.sub(r"so_\w+_\d+::key", "K", f.dname), f.where(), ok=ok)
         if not ok:
             run.violation(rule, "method::check_static_offset|branch", "check_static_offset does not route exactly the actual != expected outcome to the error handler", f.where())
